@@ -263,6 +263,10 @@ def mon_handles(h, want):
                 v.append(ctx + ": send with no receiver handle left returned %s" % res)
             if "err:closed" in res and k not in ("close",) and (ns > 0 and nr > 0) and k != "poll":
                 v.append(ctx + ": closed error on an open channel with handles on both sides")
+            if ns == 0 and nr > 0 and side.get(l[1] if len(l) > 1 else "") == "R" and res == "err:closed" \
+                    and k in ("recv", "recvto", "tryrecv", "tryrecvrt", "drain"):
+                v.append(ctx + ": a live receiver handle (%d counted by the history) was told 'closed' after the last sender left, "
+                               "instead of the buffered values and then 'send closed'" % nr)
     return v
 
 
